@@ -389,34 +389,45 @@ func TestVerifC03(t *testing.T) {
 				if ct == "ssh" {
 					kd = k.SSH
 				}
-				d := 2 * time.Hour
-				q := verifCertReq("alice", ct, kd, "2h", nil)
-				iat := time.Now().Add(-23 * time.Hour)
-				q.Cookies = map[string]string{"auth_cookie": verifMint(verifSessionClaims("alice", verifBit["password"]|verifBit["U2F"], iat, 30*time.Hour), ca)}
-				tBefore := time.Now()
-				resp := env.Do(q.Build())
-				tAfter := time.Now()
-				cs := c03Case{Path: "certgen", CertType: ct, Cred: "cookie-age-23h," + zone, Status: resp.Code, Duration: "2h"}
-				rep.Eval(fmt.Sprintf("certgen|%s|%s|%d", ct, zone, resp.Code))
-				if resp.Code != 200 {
-					continue
-				}
-				var nb, na int64
-				if ct == "ssh" {
-					sc, err := verifParseSSHCert(resp.Body)
-					if err != nil {
+				// a session near the end of its window asking for more than is left, and a fresh one asking for little
+				// (the second is issued under any lifetime policy, so the phase observes certificates even on a tree
+				// whose limits are tighter than today's)
+				for _, sess := range []struct {
+					age  time.Duration
+					life time.Duration
+					dur  string
+					d    time.Duration
+					name string
+				}{{23 * time.Hour, 30 * time.Hour, "2h", 2 * time.Hour, "cookie-age-23h"}, {5 * time.Minute, 2 * time.Hour, "10m", 10 * time.Minute, "cookie-age-5m"}} {
+					d := sess.d
+					q := verifCertReq("alice", ct, kd, sess.dur, nil)
+					iat := time.Now().Add(-sess.age)
+					q.Cookies = map[string]string{"auth_cookie": verifMint(verifSessionClaims("alice", verifBit["password"]|verifBit["U2F"], iat, sess.life), ca)}
+					tBefore := time.Now()
+					resp := env.Do(q.Build())
+					tAfter := time.Now()
+					cs := c03Case{Path: "certgen", CertType: ct, Cred: sess.name + "," + zone, Status: resp.Code, Duration: sess.dur}
+					rep.Eval(fmt.Sprintf("certgen|%s|%s|%s|%d", ct, zone, sess.name, resp.Code))
+					if resp.Code != 200 {
 						continue
 					}
-					nb, na = int64(sc.ValidAfter), int64(sc.ValidBefore)
-				} else {
-					xc, err := verifParseX509PEM(resp.Body)
-					if err != nil {
-						continue
+					var nb, na int64
+					if ct == "ssh" {
+						sc, err := verifParseSSHCert(resp.Body)
+						if err != nil {
+							continue
+						}
+						nb, na = int64(sc.ValidAfter), int64(sc.ValidBefore)
+					} else {
+						xc, err := verifParseX509PEM(resp.Body)
+						if err != nil {
+							continue
+						}
+						nb, na = xc.NotBefore.Unix(), xc.NotAfter.Unix()
 					}
-					nb, na = xc.NotBefore.Unix(), xc.NotAfter.Unix()
+					rep.Count("decoded_other_zone", 1)
+					c03Judge(rep, &cs, "certgen-"+ct, nb, na, false, tBefore, tAfter, &d, iat, 24*time.Hour)
 				}
-				rep.Count("decoded_other_zone", 1)
-				c03Judge(rep, &cs, "certgen-"+ct, nb, na, false, tBefore, tAfter, &d, iat, 24*time.Hour)
 			}
 		}
 	}
